@@ -105,6 +105,10 @@ def generate(seed, tier):
     dirmode = rng.random() < 0.2
     nfiles = rng.choice([1, 2, 3, 4]) if dirmode else 1
     tbs = [model.gen_treebank(rng, k) for _ in range(nfiles)]
+    if rng.random() < 0.03 and nsteps == 1:
+        k["n_max"] = max(k["n_max"], 5)      # a long file: crosses buffer boundaries
+        tbs[0] = model.gen_treebank(rng, k, nsent=rng.randint(120, 300),
+                                    sid_pattern="consecutive")
     kw = {}
     codec = src_fmt
     if src_fmt == "export":
@@ -120,7 +124,7 @@ def generate(seed, tier):
     if src_fmt in ("brackets", "discobrackets") and rng.random() < 0.3:
         sopts["gf_split"] = True
         kw["gf"] = True
-    gz = rng.random() < 0.2 and src_fmt != "tigerxml" and not dirmode
+    gz = rng.random() < 0.2 and src_fmt != "tigerxml"
     for tb in tbs:
         if not rc.encodable(tb, "latin-1") and "latin-1" in encs:
             encs = ["utf-8" if e == "latin-1" else e for e in encs]
